@@ -63,7 +63,7 @@ fn cases_list() -> Vec<Value> {
         }
     }
     for n in 0..=3 {
-        for callee in ["fn", "closure", "returned-closure", "method-dot", "method-path", "generic"] {
+        for callee in ["fn", "closure", "returned-closure", "returned-fn", "method-dot", "method-path", "generic"] {
             v.push(json!({"kind": "call", "n": n, "callee": callee}));
         }
     }
@@ -202,6 +202,13 @@ fn build(case: &Value) -> Option<(Program, String)> {
                     ));
                     E::Call(Box::new(call("mk", vec![T6::I32.probe(9)])), args)
                 }
+                "returned-fn" => {
+                    // the callee is an effectful expression yielding a plain top-level function: choose(t(9))(args…)
+                    items.push(fn_def("target", params.iter().map(|p| (*p, Ty::i32())).collect(), Some(Ty::i32()), fbody));
+                    let k = n.fresh("k");
+                    items.push(fn_def("choose", vec![(k, Ty::i32())], Some(fty.clone()), block(vec![st(T6::I32.show(v(k)))], Some(E::FnRef("target".into(), vec![])))));
+                    E::Call(Box::new(call("choose", vec![T6::I32.probe(9)])), args)
+                }
                 "method-dot" | "method-path" => {
                     items.push(Item::Struct(StructDef { name: "Rc".into(), generics: vec![], fields: vec![("base".into(), Ty::i32())], derives: vec![] }));
                     let sf = n.fresh("self");
@@ -333,7 +340,7 @@ impl Family for EvalOrder {
         &["C09", "C01", "C02", "C04"]
     }
     fn rule(&self) -> &'static str {
-        "effect probes in both operand positions of all 12 binary operators at int32/int8/string/bool; full truth tables (8 assignments) of 10 &&/||/! formulas in 5 positions (let, if condition, while condition, argument, return); calls with 0-3 probed arguments through 6 callee forms (fn, closure, effectful callee expression, method dot/path form with probed receiver, generic fn); struct literals in all 6 written field orders; while with 0-3 iterations and a probed condition; tuple/array/constructor elements; guards: the same 10 formulas x 8 assignments with a call-free trapping operand (100 / z > 3, z in {0, 1}) in each leaf position, the other leaves plain variables or probes, as a function result or an if condition. non-trivial = programs printing >= 2 probes; distinct = distinct source text"
+        "effect probes in both operand positions of all 12 binary operators at int32/int8/string/bool; full truth tables (8 assignments) of 10 &&/||/! formulas in 5 positions (let, if condition, while condition, argument, return); calls with 0-3 probed arguments through 7 callee forms (fn, closure, effectful callee expression yielding a closure / yielding a plain function, method dot/path form with probed receiver, generic fn); struct literals in all 6 written field orders; while with 0-3 iterations and a probed condition; tuple/array/constructor elements; guards: the same 10 formulas x 8 assignments with a call-free trapping operand (100 / z > 3, z in {0, 1}) in each leaf position, the other leaves plain variables or probes, as a function result or an if condition. non-trivial = programs printing >= 2 probes; distinct = distinct source text"
     }
     fn cases(&self, _tier: Tier) -> Box<dyn Iterator<Item = Value> + '_> {
         Box::new(cases_list().into_iter())
